@@ -87,6 +87,16 @@ func (e *env) replayRunner(c *caseRec) *runner {
 }
 
 func (rn *runner) via(path string, b []byte) verdict {
+	if path == "rpc" {
+		return rn.submitRPC(b)
+	}
+	if path == "p2p" {
+		tx, err := transaction.NewTransactionFromBytes(b)
+		if err != nil {
+			return verdict{Class: "decode", Err: err.Error()}
+		}
+		return rn.submitP2P(tx)
+	}
 	if path == "pooltxwithdata" {
 		tx, err := transaction.NewTransactionFromBytes(b)
 		if err != nil {
@@ -110,6 +120,42 @@ func (rn *runner) via(path string, b []byte) verdict {
 func (e *env) replaySubmit(c *caseRec) string {
 	rn := e.replayRunner(c)
 	defer rn.close()
+	if c.Sub == "fee" && (c.Path == "rpc" || c.Path == "neotest") {
+		// the recorded transaction carries the threshold as its network fee
+		tx, err := transaction.NewTransactionFromBytes(unhex(c.Tx))
+		if err != nil {
+			return "harness: " + err.Error()
+		}
+		if c.Path == "rpc" {
+			got, err := rn.rpcFee(tx)
+			if err != nil {
+				return "calculatenetworkfee failed: " + err.Error()
+			}
+			if got != tx.NetworkFee {
+				return fmt.Sprintf("calculatenetworkfee says %d, the acceptance threshold is %d", got, tx.NetworkFee)
+			}
+			return ""
+		}
+		var signers []*acct
+		for _, s := range tx.Signers {
+			a := rn.facts.Accts[s.Account]
+			for pos := 0; pos < 3 && a == nil; pos++ {
+				for _, sh := range sigShapes() {
+					if x := sh.acct(pos); x.Hash == s.Account {
+						a = x
+					}
+				}
+			}
+			if a == nil {
+				return "harness: unknown signer in the recorded transaction"
+			}
+			signers = append(signers, a)
+		}
+		if got, ok := neotestFee(rn.n, tx, signers); ok && got != tx.NetworkFee {
+			return fmt.Sprintf("neotest.AddNetworkFee says %d, the acceptance threshold is %d", got, tx.NetworkFee)
+		}
+		return ""
+	}
 	before := rn.poolList()
 	v := rn.via(c.Path, unhex(c.Tx))
 	var out []string
